@@ -2,7 +2,8 @@
 From Coq Require Import ZArith List Bool Reals Floats.SpecFloat.
 From Flocq Require Import Core.Zaux Core.Raux Core.Defs Core.Generic_fmt Core.FLT Core.Round_NE IEEE754.BinarySingleNaN.
 From Rscel Require Import Base.Prims Base.F64 Base.Text Model.Value Model.Lexer Model.Ast Model.Parser.
-From Rscel Require Import Proofs.Literals Proofs.FloatLit Proofs.StrLit Proofs.Conv Proofs.LexInt.
+From Rscel Require Import Proofs.Literals Proofs.FloatLit Proofs.StrLit Proofs.Conv Proofs.LexInt Proofs.LexStr Proofs.LitProgram.
+From Rscel Require Import Model.Compile Model.Interp.
 Import ListNotations.
 Open Scope Z_scope.
 
@@ -130,3 +131,48 @@ Theorem C13_lex_decimal_source : forall n, 0 <= n -> in_u64 n = true ->
     LOk [mkTok (TIntLit n) (mkRange (mkLoc 0 0) (mkLoc 0 (Z.of_nat (length (dec_of_nonneg n)))))] s'.
 Proof. exact lex_decimal_source. Qed.
 Print Assumptions C13_lex_decimal_source.
+
+(** * From source text to value (tokenizer, parser, compiler and VM composed)
+
+    A source consisting of one literal compiles, for any fuel >= 1, to the
+    one-instruction program that pushes the literal's value, and that program
+    evaluates to the value under any environment. *)
+
+Theorem C13_single_literal_program : forall f src tk rng send l v,
+  collect_token (mkScan src 0 0) = LOk (Some (mkTok tk rng)) send -> sc_rest send = [] ->
+  lit_of_token tk = Some l -> lit_val l = Some v ->
+  compile_source (S f) src = COk (mkProgram [IPush v] [] (lit_tree rng l)) 2%nat.
+Proof. exact compile_single_literal. Qed.
+Print Assumptions C13_single_literal_program.
+
+Theorem C13_decimal_source_evaluates : forall n f g E d lg, 0 <= n <= i64_max -> (d < 32)%nat ->
+  exists p k, compile_source (S f) (dec_of_nonneg n) = COk p k /\
+              run (S (S (S g))) E (pr_code p) true d lg = (ROk (VInt n), lg).
+Proof. exact decimal_source_evaluates. Qed.
+Print Assumptions C13_decimal_source_evaluates.
+
+Theorem C13_uint_source_evaluates : forall n u f g E d lg, 0 <= n <= u64_max -> (u = 117 \/ u = 85) -> (d < 32)%nat ->
+  exists p k, compile_source (S f) (dec_of_nonneg n ++ [u]) = COk p k /\
+              run (S (S (S g))) E (pr_code p) true d lg = (ROk (VUInt n), lg).
+Proof. exact uint_source_evaluates. Qed.
+Print Assumptions C13_uint_source_evaluates.
+
+Theorem C13_string_source_evaluates : forall q items f g E d lg, (q = 39 \/ q = 34) ->
+  Forall (fun it => spells q (fst it) (snd it)) items -> (d < 32)%nat ->
+  exists p k, compile_source (S f) (q :: text_of items ++ [q]) = COk p k /\
+              run (S (S (S g))) E (pr_code p) true d lg = (ROk (VString (utf8_encode (map fst items))), lg).
+Proof. exact string_source_evaluates. Qed.
+Print Assumptions C13_string_source_evaluates.
+
+Theorem C13_raw_string_source_evaluates : forall q cs f g E d lg, (q = 39 \/ q = 34) -> Forall (fun c => c <> q) cs -> (d < 32)%nat ->
+  exists p k, compile_source (S f) (114 :: q :: cs ++ [q]) = COk p k /\
+              run (S (S (S g))) E (pr_code p) true d lg = (ROk (VString (utf8_encode cs)), lg).
+Proof. exact raw_string_source_evaluates. Qed.
+Print Assumptions C13_raw_string_source_evaluates.
+
+Theorem C13_bytes_source_evaluates : forall q items f g E d lg, (q = 39 \/ q = 34) ->
+  Forall (fun it => bspells q (fst it) (snd it)) items -> (d < 32)%nat ->
+  exists p k, compile_source (S f) (98 :: q :: btext_of items ++ [q]) = COk p k /\
+              run (S (S (S g))) E (pr_code p) true d lg = (ROk (VBytes (bytes_of_items items)), lg).
+Proof. exact bytes_source_evaluates. Qed.
+Print Assumptions C13_bytes_source_evaluates.
